@@ -330,6 +330,12 @@ def main():
                 chk.add(filter_basic, real_t=rt, order=order, ftype=ftype, field_type="scalar")
                 chk.add(filter_basic, real_t=rt, order=order, ftype=ftype, field_type="vector")
                 chk.add(filter_fourier_symbol, real_t=rt, order=order, ftype=ftype)
+    if chk.quick:
+        for case in ("at_edges", "range_and_symmetry", "monotone"):
+            chk.add(char_function, real_t="float32", dim=2, blend=0.1, case=case)
+        chk.add(brinkmann, real_t="float32", variant="field", dim=3, field_type="vector")
+        chk.add(boundary_zone, real_t="float32", dim=3, width=2, shape=(5, 6, 7), field_type="vector")
+        chk.add(filter_fourier_symbol, real_t="float32", order=1, ftype="convolution")
     chk.bounds = ["Brinkmann: per-cell claims on 2^d grids, penalty >= 0, indicator >= 0, all field/target values", "characteristic function: blend widths 0.1 and 2*dx(1/16); phi symbolic per case",
                   f"boundary zone: widths {list(widths)} on (2w+1)x(2w+2) (x..) grids, scalar and vector", f"filters: orders {list(orders)}, both types, scalar/vector; (2p+3)^3 grids; Fourier modes: cos(theta_a) in [-1,1] and 8 seeds symbolic"]
     chk.outside = ["rounding", "filter behaviour within p+1 cells of the boundary", "zone widths with overlapping zones (n < 2w)"]
